@@ -128,6 +128,9 @@ def report(fam, pid, tier, seed, res, wall, extra=()):
         else:
             new.append(v)
     level, coverage, assumptions = fam.evidence(pid, tier, res)
+    for d in coverage.get("drift_traces", []) or []:
+        print("DRIFT family=%s trace=%s program=%s explained=%s/%s first-unexplained=%s (model drift: reported, not a verdict)"
+              % (fam.NAME, d.get("trace"), d.get("program"), d.get("explained"), d.get("events"), json.dumps(d.get("first_unexplained"))))
     coverage["known_findings_seen"] = {k: n for k, (f, n) in seen_known.items()}
     for name, r2 in extra:
         coverage["also_judged_by_" + name] = {"observations": r2.get("impl", {}).get("obs"), "design_states": r2.get("design", {}).get("states")}
